@@ -96,7 +96,7 @@ class RealFs(RealVolumeOf, Fs):
         try:
             os.rename(path, dest)
         except OSError as e:
-            if e.errno != errno.EXDEV:
+            if e.errno != errno.EXDEV or os.path.ismount(path):
                 raise
             return fs.move(path, dest)
 
